@@ -384,6 +384,111 @@ def _defaults_case(override, preemptions):
     return case
 
 
+EXPR_POLICIES = """
+version: '2.0'
+wf:
+  input:
+    - wb
+    - wa
+    - to
+    - pb
+@@DEFAULTS@@
+  tasks:
+    t:
+      action: std.noop
+@@TASK@@
+"""
+_POLICY_LINES = ("wait-before: <% $.wb %>", "wait-after: <% $.wa %>",
+                 "timeout: <% $.to %>", "pause-before: <% $.pb %>")
+
+
+def _two_runs_case(level):
+    """the same definition is run twice in one engine process with different
+    inputs: every policy value is the one of ITS execution (no state leaks
+    through cached specs / policy objects)"""
+    def case():
+        from vt.world import World
+        from mistral_lib import actions as ml
+        ind = '    ' if level == 'defaults' else '      '
+        block = '\n'.join(ind + x for x in _POLICY_LINES)
+        text = EXPR_POLICIES.replace(
+            '@@DEFAULTS@@', ('  task-defaults:\n' + block)
+            if level == 'defaults' else '').replace(
+            '@@TASK@@', block if level == 'task' else '')
+        sig = 'C08.two-runs:%s' % level
+        w = World([text])
+
+        def timers_last(events):
+            # the timeout timer (50-70 s) fires after everything else
+            for e in events:
+                if not (e.kind == 'job' and
+                        'fail_task_if_incomplete' in e.label):
+                    return e
+            return None
+        with w:
+            vals = []
+            for r in (1, 2):
+                v = {'wb': choice('wb%d' % r, [1, 2]),
+                     'wa': choice('wa%d' % r, [3, 4]),
+                     'to': choice('to%d' % r, [50, 70]),
+                     'pb': choice('pb%d' % r, [False, True])}
+                vals.append(v)
+                n0 = len(w.delivered)
+                wid = w.start('wf', dict(v))
+                w.run(chooser=timers_last,
+                      result_of=lambda ev: ml.Result(data='ok'))
+                if v['pb']:
+                    reach('paused-run-%d' % r)
+                    t = w.task('t', wid)
+                    check(w.wf_ex(wid)['state'] == 'PAUSED' and t is not None
+                          and not w.actions(t['id']),
+                          'pause-before-ignored',
+                          {'signature': sig + ':pause-before', 'run': r,
+                           'values': vals, 'wf': w.wf_ex(wid)['state']})
+                    w.call('resume_workflow', wid)
+                    w.run(chooser=timers_last,
+                          result_of=lambda ev: ml.Result(data='ok'))
+                else:
+                    check(not [c for c in w.cas_log
+                               if c[0] == 'wf' and c[1] == wid
+                               and c[3] == 'PAUSED'],
+                          'paused-without-pause-before',
+                          {'signature': sig + ':spurious-pause', 'run': r,
+                           'values': vals})
+                # now the timers fire (on a finished task: no effect)
+                w.run(result_of=lambda ev: ml.Result(data='ok'))
+                t = w.task('t', wid)
+                info = {'run': r, 'values': vals,
+                        'wf': w.wf_ex(wid)['state']}
+                check(w.wf_ex(wid)['state'] == 'SUCCESS' and
+                      t['state'] == 'SUCCESS',
+                      'run-not-finished', dict(info,
+                                               signature=sig + ':final'))
+                jobs = [e for e in w.delivered[n0:] if e.kind == 'job']
+
+                def delays(word):
+                    return [e.payload.run_after for e in jobs
+                            if word in e.label]
+                # (a task released by the operator after pause-before is
+                # started by the resume; whether wait-before still applies
+                # then is not specified - only a wrong delay is an error)
+                check(delays('_continue_task') == [v['wb']] or
+                      (v['pb'] and delays('_continue_task') == []),
+                      'wait-before-delay-wrong',
+                      dict(info, signature=sig + ':wait-before',
+                           got=delays('_continue_task')))
+                check(delays('_complete_task') == [v['wa']],
+                      'wait-after-delay-wrong',
+                      dict(info, signature=sig + ':wait-after',
+                           got=delays('_complete_task')))
+                check(delays('fail_task_if_incomplete') == [v['to']],
+                      'timeout-wrong',
+                      dict(info, signature=sig + ':timeout',
+                           got=delays('fail_task_if_incomplete')))
+                reach('run-%d-done' % r)
+    return case
+
+
 @obligation(
     'C08.E', engine='symx+world(minidb)',
     functions=['mistral.engine.policies:RetryPolicy.after_task_complete',
@@ -408,7 +513,10 @@ def _defaults_case(override, preemptions):
                      'timeout with the timer delivered before or after the '
                      'result (<= 1 out-of-order delivery); fail-on with a '
                      'symbolic value; pause-before; task-defaults vs '
-                     'task-level retry',
+                     'task-level retry; the same definition run twice in '
+                     'one engine process with solver-chosen values of the '
+                     'expression-valued wait-before / wait-after / timeout '
+                     '/ pause-before (task level and task-defaults)',
             'thorough': '<= 2 out-of-order deliveries'},
     stubs=['minidb', 'QueueRPC', 'FakeScheduler (timers are events)',
            'FakeExecutor', 'post-commit queue inline',
@@ -445,3 +553,6 @@ def c08_e(ctx):
     for o in ('none', 'zero', 'one'):
         yield Case('defaults/%s' % o, _defaults_case(o, 0),
                    needed=['quiescent'])
+    for level in ('task', 'defaults'):
+        yield Case('two-runs/%s' % level, _two_runs_case(level),
+                   needed=['run-1-done', 'run-2-done', 'paused-run-2'])
